@@ -1,6 +1,6 @@
 (* C08 — property theorems (statements only; proofs live in Proofs*.v).  See notes/C08.md for the status of each. *)
 From Coq Require Import List ZArith QArith Qabs Bool.
-Require Import QV.C08.Model QV.C08.Spec QV.C08.Wf QV.C08.Proofs QV.C08.ProofsVec QV.C08.ProofsRev.
+Require Import QV.C08.Model QV.C08.Spec QV.C08.Wf QV.C08.Proofs QV.C08.ProofsVec QV.C08.ProofsRev QV.C08.ProofsConst.
 Import ListNotations.
 Open Scope Q_scope.
 
@@ -18,6 +18,22 @@ Print Assumptions C08_independent_of_other_times.
 Theorem C08_get_sampled_pointwise : forall w c ts vals, get_sampled w c ts = OK vals -> vals = map (gs w c) ts.
 Proof. exact get_sampled_pointwise. Qed.
 Print Assumptions C08_get_sampled_pointwise.
+
+(* ---- a reported constant value is the sampled value ---- *)
+Definition C08_constant_statement : Prop :=
+  forall w, okb w = true -> forall c v t, inb c (channels w) = true -> cv w c = Some v -> 0 <= t -> t <= duration w ->
+  exists v', sample w c t = Some v' /\ v' == v.
+(* proved: all waveforms without a TransformingWaveform node, t in [0, duration) *)
+Theorem C08_constant_partial : forall w, okb w = true -> no_trans w = true -> forall c v t,
+  inb c (channels w) = true -> cv w c = Some v -> 0 <= t -> t < duration w ->
+  exists v', sample w c t = Some v' /\ v' == v.
+Proof. exact cv_sound_no_trans. Qed.
+Print Assumptions C08_constant_partial.
+(* the full statement fails at t = duration on the unchanged code: unsafe_sample of a plain sequence of equal constants *)
+Theorem C08_constant_refuted_at_duration :
+  exists w c t v, okb w = true /\ cv w c = Some v /\ Qeq_bool t (duration w) = true /\ sample w c t = None /\ gs w c t = Some v.
+Proof. exact constant_vs_unsafe_at_duration. Qed.
+Print Assumptions C08_constant_refuted_at_duration.
 
 (* ---- equality ---- *)
 Theorem C08_eq : forall a b, wf_eqb a b = true ->
